@@ -476,7 +476,7 @@ def c12(report, rng, tier, findings):
     results = pmap(rule_impl, [(c, {'caching': (False, True), 'evals': 2}) for c in cases])
     lines = run_driver([rule_sexp(c) for c in cases])
     judge_rules(report, cases, results, lines, findings, 'C12', nontriv)
-    return ['EqlModel.Props.C12', 'EqlModel.Lemmas.RuleBuild', 'EqlModel.RulesExt'], [
+    return ['EqlModel.Props.C12', 'EqlModel.Props.C12Rows', 'EqlModel.Lemmas.RuleBuild', 'EqlModel.RulesExt'], [
         "branch-closed conditions: each branch's conditions mention the variables its conclusion uses",
         "one Add conclusion per branch; next_rule is outside the property",
         "the construction (refinement/alternative attachment) is transliterated (refineAt/altAt/buildKids) and proved to yield "
